@@ -405,7 +405,7 @@ func c08MissingArgs(c *Case) {
 func c08Cases(tier string) int {
 	base := len(c08LongProgs) + len(c08Runaway)
 	if tier == "thorough" {
-		return base + len(c08LongProgs)*4 + 250000
+		return base + len(c08LongProgs)*4 + 1500000
 	}
 	return base + 30000
 }
